@@ -89,6 +89,8 @@ type Exec struct {
 	OnLoopBack func(s *State, f *Frame, lp *Loop)
 	// OnInit is called on the initial state of a verified function.
 	OnInit func(s *State, f *Frame)
+	// OnAlloc is called for every struct object allocated by the code under verification.
+	OnAlloc func(s *State, id *Term, t types.Type)
 	// FrameScope reports whether an opaque callee's body is scanned for the heap
 	// components it may modify (which are then havocked at the call).
 	FrameScope func(fn *ssa.Function) bool
@@ -166,7 +168,26 @@ func (x *Exec) staticFunc(fn *ssa.Function) *FuncVal {
 	return f
 }
 
+// deepUnalias removes alias names from a type expression: the dynamic type of
+// an interface value is the aliased type (type noOutput = types.Struct).
+func deepUnalias(t types.Type) types.Type {
+	switch u := t.(type) {
+	case *types.Alias:
+		return deepUnalias(types.Unalias(u))
+	case *types.Pointer:
+		if e := deepUnalias(u.Elem()); e != u.Elem() {
+			return types.NewPointer(e)
+		}
+	case *types.Slice:
+		if e := deepUnalias(u.Elem()); e != u.Elem() {
+			return types.NewSlice(e)
+		}
+	}
+	return t
+}
+
 func (x *Exec) typeID(t types.Type) int64 {
+	t = deepUnalias(t)
 	k := types.TypeString(t, nil)
 	if id, ok := x.typeIDs[k]; ok {
 		return id
@@ -422,6 +443,10 @@ func (x *Exec) initialState(fn *ssa.Function, spec *FuncSpec) *State {
 	f := x.newFrame(fn, spec)
 	for _, p := range fn.Params {
 		v := s.freshValue("p."+p.Name(), p.Type())
+		// objects that exist at entry are distinct from those this function allocates (ids above objBase)
+		if pv, ok := v.(*PtrVal); ok && pv.Cell == nil {
+			s.Assume(Lt(pv.Ref, IntLit(objBase)))
+		}
 		f.Regs[p] = v
 		f.Vars[p.Name()] = v
 		f.EntryArgs = append(f.EntryArgs, v)
@@ -470,6 +495,16 @@ func (x *Exec) initGhost(s *State, f *Frame, spec *FuncSpec) {
 	}
 	env := s.NewEnv(f)
 	for _, g := range spec.Ghosts {
+		// ghost of a named struct type of the package: a (nil-initialised) pointer to it
+		if tn := strings.TrimPrefix(g.Type, "*"); env.Pkg != nil && isIdent(tn) {
+			if obj, ok := env.Pkg.Scope().Lookup(tn).(*types.TypeName); ok {
+				if _, isStruct := obj.Type().Underlying().(*types.Struct); isStruct {
+					s.Ghost[g.Name] = &PtrVal{Ref: IntLit(0), Base: obj.Type(), Typ: obj.Type()}
+					s.GhostTyp[g.Name] = g.Type
+					continue
+				}
+			}
+		}
 		sortS := ghostSort(g.Type)
 		var v Value
 		if strings.HasPrefix(sortS, "slice:") {
@@ -890,6 +925,9 @@ func (x *Exec) alloc(s *State, f *Frame, in *ssa.Alloc) Value {
 		id := IntLit(x.newID())
 		p := &PtrVal{Ref: id, Base: et, Typ: et}
 		s.StoreTo(p, s.zeroValue(et))
+		if x.OnAlloc != nil {
+			x.OnAlloc(s, id, et)
+		}
 		if isIdent(in.Comment) {
 			f.Vars[in.Comment] = p
 			f.VarAddr[in.Comment] = true
